@@ -48,6 +48,9 @@ META = dict(
 )
 
 KINDS = (222, 223, 224, 225, 232)
+# self-test switch: skip the model-vs-implementation comparisons so that only the oracle (Spec.links on the
+# implementation's items, the view checks, the raw-bit check of 225255) can report (notes/C07_mutations.py --oracle)
+ORACLE_ONLY = bool(os.environ.get('VERIF_C07_ORACLE_ONLY'))
 
 # --------------------------------------------------------------------------------------------------
 # instrumentation: the times at which 235000 was processed (it records no item)
@@ -96,6 +99,16 @@ class Gen(object):
         if family == 'assoc':
             body = [i for _ in range(rng.randint(1, 3)) for i in ep()]
             return [ep() for _ in range(rng.randint(0, 2))] + [[204000 + rng.randint(1, 8), 31021] + body + [204000]] + [ep() for _ in range(rng.randint(0, 2))]
+        if family == 'assoc-ops':
+            # an associated field in force over a 203YYY definition / a 206YYY skipped (known) element (DESIGN F11)
+            body = list(ep())
+            if rng.random() < 0.5:
+                els = sorted(set(tg.some_numeric(rng.randint(1, 2))))
+                body += [203000 + rng.randint(2, 12)] + els + [203255] + els + [203000]
+            else:
+                body += [206000 + rng.randint(1, 24), rng.choice([1001, 2001, 2001, 63255])]
+            body += ep()
+            return [ep() for _ in range(rng.randint(0, 2))] + [[204000 + rng.randint(1, 8), 31021] + body + [204000]] + [ep() for _ in range(rng.randint(1, 2))]
         if family == 'ops':
             return [tg.item(0) for _ in range(rng.randint(1, 5))] + [ep() for _ in range(rng.randint(0, 2))]
         if family == 'long':
@@ -120,7 +133,7 @@ class Gen(object):
         ends_with_225 = False
         for k in range(steps):
             kind = first_kind if (k == 0 and first_kind) else rng.choice(KINDS)
-            recall = cur is not None and not simple and rng.random() < 0.45
+            recall = cur is not None and not simple and rng.random() < (0.5 if (cur['reuse'] and not cur.get('cancelled')) else 0.12)
             pre235 = cur is not None and not recall and not simple and rng.random() < 0.35
             if pre235:
                 ids.append(235000)
@@ -170,12 +183,17 @@ class Gen(object):
             what = rng.choice(self.q33) if kind == 222 else kind * 1000 + 255
             r = rng.random()
             ncons = zeros0
-            early = (not simple) and zeros0 > 1 and rng.random() < 0.12
+            early = (not simple) and zeros0 > 1 and rng.random() < 0.15
             if early:
                 ncons = rng.randint(0, zeros0 - 1)
+            elif recall and cur.get('left') and rng.random() < 0.6:
+                # a recall after a run that stopped early: take at most what an iterator that was NOT restarted
+                # would still hold (so that only the owners tell a restart from a continuation)
+                ncons = rng.randint(1, cur['left'])
+                early = ncons < zeros0
             if ncons == 0 and not early:
                 mode = 'none'
-            elif r < 0.4 and not early:
+            elif r < 0.4 and ncons == zeros0:
                 mode = 'delayed'
             elif r < 0.75 or ncons > 4:
                 mode = 'fixed'
@@ -194,6 +212,7 @@ class Gen(object):
             else:
                 cur['rigid'] = True
             cur['steps'].append((mode, len(desc)))
+            cur['left'] = zeros0 - ncons
             d.update(consumers=mode, ncons=ncons, early=early)
             d['_cons_slot'] = [len(f31002[s]) for s in range(nsub_f)] if mode == 'delayed' else None
             if mode == 'delayed':
@@ -206,6 +225,7 @@ class Gen(object):
             if cur['reuse'] and not simple and rng.random() < 0.2:
                 ids.append(237255)
                 d['post237255'] = True
+                cur['cancelled'] = True
             ends_with_225 = kind == 225 and mode in ('fixed', 'unrolled', 'delayed') and not d.get('post237255')
         if not simple and rng.random() < 0.15:
             ids.append(235000)
@@ -243,7 +263,7 @@ class C7Case(P.Case):
     __slots__ = ('info', 'family', 'ends225', 'base_len', 'stream', 'rnd', 'P0', 'assoc_open')
 
 
-FAMILIES = ('plain', 'seq', 'nested', 'delayed', 'assoc', 'ops', 'long')
+FAMILIES = ('plain', 'seq', 'nested', 'delayed', 'assoc', 'ops', 'long', 'assoc-ops')
 
 
 def base_forced(rng):
@@ -332,6 +352,29 @@ def make_cases(drv, treq, rng, plans):
             continue
         c.valss = r['vals']
         out.append(c)
+    # compressed, several subsets: the generator copies the bit-map of subset 0 into every subset; permute the
+    # bits of the later subsets (the coder must take the bit-map from subset 0, whatever the others hold)
+    todo = [c for c in out if c.comp and c.n >= 2 and rng.random() < 0.6]
+    if todo:
+        reqs = [treq] + [{'op': 'enc-data', 'ids': c.ids, 'compressed': True, 'vals': c.valss} for c in todo]
+        for c, r in zip(todo, drv.batch(reqs)[1:]):
+            if 'err' in r:
+                continue
+            lab = r['subsets'][0]['d']
+            k = 0
+            while k < len(lab):
+                if lab[k] == '031031':
+                    e = k
+                    while e < len(lab) and lab[e] == '031031':
+                        e += 1
+                    for sidx in range(1, c.n):
+                        seg = c.valss[sidx][k:e]
+                        rng.shuffle(seg)
+                        c.valss[sidx][k:e] = seg
+                    k = e
+                else:
+                    k += 1
+            c.note = 'bitmaps-differ-across-compressed-subsets'
     return out
 
 
@@ -617,7 +660,7 @@ def run_chunk(ctx, drv, treq, cases):
     enc = P.run_encode(drv, treq, cases)
     items = []
     for c, impl, model in enc:
-        why = P.compare_encode(c, impl, model)
+        why = None if ORACLE_ONLY else P.compare_encode(c, impl, model)
         if why:
             report(ctx, c, 'encode: ' + why, stage='encode')
         if impl[0] != 'ok':
@@ -662,12 +705,14 @@ def run_chunk(ctx, drv, treq, cases):
         ctx.count('compressed' if c.comp else 'uncompressed')
         ctx.count('subsets-%d' % c.n)
         ctx.count('chain-%d' % len(c.info))
+        if c.note:
+            ctx.count(c.note)
         for f in feats:
             ctx.count(f)
         w = wf.get(k, {})
         ctx.count('WFbitmap' if w.get('wf') else 'outside-WFbitmap')
         # model vs implementation
-        why = P.compare_decode((im['status'], im.get('subsets'), None), mr)
+        why = None if ORACLE_ONLY else P.compare_decode((im['status'], im.get('subsets'), None), mr)
         if why:
             report(ctx, c, 'decode: ' + why, b, stage='decode')
             continue
@@ -778,7 +823,7 @@ def run(ctx):
     nrand = 690 if quick else 30000 - len(plans)
     for k in range(nrand):
         r = rng.random()
-        fam = rng.choice(FAMILIES)
+        fam = rng.choice(FAMILIES + ('assoc-ops', 'assoc-ops'))
         n = rng.choice([1, 1, 2, 3])
         pl = {'family': fam, 'n': n, 'comp': rng.random() < 0.45, 'stream': 'random', 'edition': rng.choice([4, 4, 3])}
         if fam == 'long':
